@@ -27,7 +27,7 @@ def plan(ctx):
         if ctx.tier == "quick":
             cases = P.corpus_cases(ctx, v, n_files=10, n_w3=20, modes=0, max_file_bytes=20000, w3_size=0.6, w1_max_bytes=40000,
                                    w4_filter=lambda i: i.startswith(("if-6", "while-12", "for-else-6", "try-6", "fn-tail", "const-", "sig-", "doc-", "dead-", "fold-tuple-5",
-                                                                     "names-25", "consts-25", "locals-25", "cells-25", "chained")))
+                                                                     "names-25", "consts-25", "locals-25", "cells-25", "chained", "closure-")))
             n5, nbig, nwide = 560, 1, 8
         else:
             cases = P.corpus_cases(ctx, v, n_files=150, n_w3=300, modes=10, max_file_bytes=60000)
